@@ -199,6 +199,8 @@ def run(chk: Check) -> None:
     run_arg_constructor_guards(chk, ix)
     run_fstring_collapse(chk, ix)
     run_pos_only_special_methods(chk, ix)
+    run_count_guard_agreement(chk, ix)
+    run_shared_validators(chk, ix)
 
     r3 = chk.rule("R14.3", "Errors.report clamps end_line >= line and (same line) end_column > column before the ErrorInfo is built", floor=2)
     rp = ix.func("mypy.errors.Errors.report")
@@ -541,3 +543,79 @@ def run_pos_only_special_methods(chk: Check, ix) -> None:
         else:
             r8.violation(key, sites[1][1].loc(sites[1][2]), f"default parser: {sorted(sites[0][4])}; native parser: {sorted(sites[1][4])}")
         r8.ok("both loops found", sites[0][1].loc(sites[0][2]))
+
+
+def run_count_guard_agreement(chk: Check, ix) -> None:
+    """R14.9: where both front ends report one diagnostic under a test on a count (`len(xs) < 2`,
+    `n == 1`), the two tests select the same counts."""
+    r9 = chk.rule("R14.9", "a parse-time diagnostic that both front ends report under a comparison of a count with an integer constant is reported for the same counts by both (evaluated for 0..8)", floor=2)
+    ops = {ast.Lt: lambda a, b: a < b, ast.LtE: lambda a, b: a <= b, ast.Gt: lambda a, b: a > b, ast.GtE: lambda a, b: a >= b, ast.Eq: lambda a, b: a == b, ast.NotEq: lambda a, b: a != b}
+
+    def guards(m):
+        par = m.parents()
+        out: dict[str, list] = {}
+        for n in ast.walk(m.tree):
+            if isinstance(n, ast.Attribute) and norm(n.value) == "message_registry":
+                p = n
+                prev = n
+                while p in par and not isinstance(p, (ast.If, ast.FunctionDef)):
+                    prev = p
+                    p = par[p]
+                if not isinstance(p, ast.If) or not any(prev is b for b in p.body):
+                    continue  # reported in an else arm: the test does not select it
+                atoms = p.test.values if isinstance(p.test, ast.BoolOp) and isinstance(p.test.op, ast.And) else [p.test]
+                for a in atoms:
+                    if isinstance(a, ast.Compare) and len(a.ops) == 1 and type(a.ops[0]) in ops and isinstance(a.comparators[0], ast.Constant) and type(a.comparators[0].value) is int:
+                        lhs = a.left
+                        if isinstance(lhs, ast.Name) or (isinstance(lhs, ast.Call) and norm(lhs.func) == "len"):
+                            c = a.comparators[0].value
+                            sel = frozenset(k for k in range(9) if ops[type(a.ops[0])](k, c))
+                            out.setdefault(n.attr, []).append((sel, norm(a), p.lineno))
+        return out
+
+    g_fp = guards(ix.module("mypy.fastparse"))
+    g_np = guards(ix.module("mypy.nativeparse"))
+    for name in sorted(set(g_fp) & set(g_np)):
+        want = {s for s, _, _ in g_fp[name]}
+        for sel, text, ln in g_np[name]:
+            key = f"{name}: nativeparse `{text}` selects the same counts as fastparse"
+            if sel in want:
+                r9.ok(key, f"mypy/nativeparse.py:{ln}")
+            else:
+                ft = ", ".join(sorted({t for _, t, _ in g_fp[name]}))
+                r9.violation(key, f"mypy/nativeparse.py:{ln}", f"fastparse reports {name} when `{ft}` (counts {sorted(min(want, key=len))[:4]}...), nativeparse when `{text}` (counts {sorted(sel)[:4]}): for the other counts only one of the two front ends reports the diagnostic")
+
+
+def run_shared_validators(chk: Check, ix) -> None:
+    """R14.10: the shared helpers that decide what a parameter list means are used by both front ends."""
+    r10 = chk.rule("R14.10", "every helper of mypy.sharedparse, and every `check_*` validator of mypy.nodes, that fastparse.py calls is also called by nativeparse.py (or is tabled with where the native front end gets the same effect): these helpers decide which parameter lists are rejected (duplicate names) and which parameters are positional-only", floor=3)
+    fp = ix.module("mypy.fastparse")
+    npm = ix.module("mypy.nativeparse")
+
+    def shared_imports(m):
+        out = {}
+        for n in m.tree.body:
+            if isinstance(n, ast.ImportFrom) and n.module in ("mypy.sharedparse", "mypy.nodes"):
+                for a in n.names:
+                    if n.module == "mypy.sharedparse" or a.name.startswith("check_"):
+                        if a.name[:1].islower():
+                            out[a.asname or a.name] = f"{n.module}.{a.name}"
+        return out
+
+    def called(m, names):
+        got = {}
+        for n in ast.walk(m.tree):
+            if isinstance(n, ast.Call) and isinstance(n.func, ast.Name) and n.func.id in names:
+                got.setdefault(names[n.func.id], n.lineno)
+        return got
+
+    f_calls = called(fp, shared_imports(fp))
+    n_calls = called(npm, shared_imports(npm))
+    if len(f_calls) < 3:
+        raise AnalysisError(f"only {len(f_calls)} shared parse helpers found in fastparse.py (expected sharedparse.* and nodes.check_param_names)")
+    for full, ln in sorted(f_calls.items()):
+        key = f"{full} is applied by both front ends"
+        if full in n_calls:
+            r10.ok(key, f"mypy/nativeparse.py:{n_calls[full]}")
+        else:
+            r10.violation(key, f"mypy/fastparse.py:{ln}", f"fastparse.py calls {full}; nativeparse.py never does: what the helper rejects or marks under the default parser is accepted or left unmarked under --native-parser")
